@@ -137,6 +137,15 @@ class Taint:
                 return arg_t[o[1]]
             return False
 
+        def addr_t(o):
+            """address-taint of a pointer operand: a pointer computed with a secret index, or a pointer *parameter* whose value the
+            caller derived from a secret (`&w[bit]` handed to a helper: the helper's accesses through it are secret-addressed)"""
+            if o[0] == "v":
+                return ptr_t[o[1]]
+            if o[0] == "a":
+                return bool(arg_t[o[1]]) and o[1] < len(fn.params) and fn.params[o[1]]["ty"].endswith("*")
+            return False
+
         def pinfo(o, depth=0):
             """points-to of an operand: list of (obj, lo, hi, rlo, rhi); None = unknown"""
             k = o[0]
@@ -323,8 +332,7 @@ class Taint:
                                 unknown = True
                             else:
                                 pis += pi
-                            if v[0] == "v":
-                                pt = pt or ptr_t[v[1]]
+                            pt = pt or addr_t(v)
                     if ins["ty"].endswith("*"):
                         # widening: one object reached at different offsets (loop-carried pointer) => unknown offset
                         byobj = {}
@@ -372,7 +380,7 @@ class Taint:
                     if newp != ptr[iid]:
                         ptr[iid] = newp
                         changed = True
-                    bt = ops[0][0] == "v" and ptr_t[ops[0][1]]
+                    bt = addr_t(ops[0])
                     if (idx_t or bt) and not ptr_t[iid]:
                         ptr_t[iid] = True
                         changed = True
@@ -382,7 +390,7 @@ class Taint:
                     if newp != ptr[iid]:
                         ptr[iid] = newp
                         changed = True
-                    if ops[0][0] == "v" and ptr_t[ops[0][1]] and not ptr_t[iid]:
+                    if addr_t(ops[0]) and not ptr_t[iid]:
                         ptr_t[iid] = True
                         changed = True
                     if opt(ops[0]) and not vt[iid]:
@@ -421,7 +429,7 @@ class Taint:
                 if op == "load":
                     a = ops[0]
                     pi = pinfo(a)
-                    at = a[0] == "v" and ptr_t[a[1]]
+                    at = addr_t(a)
                     if at:
                         local_sinks[(iid, "address")] = "load address depends on secret data"
                     t = False
@@ -457,7 +465,7 @@ class Taint:
                 if op == "store":
                     v, a = ops
                     pi = pinfo(a)
-                    at = a[0] == "v" and ptr_t[a[1]]
+                    at = addr_t(a)
                     if at:
                         local_sinks[(iid, "address")] = "store address depends on secret data"
                     if opt(v):
